@@ -799,7 +799,7 @@ Section Body.
     let* (e, i1) := r F_compute inner in
     let* _ := close i1 in
     let* (m, t3) := pop_src t2 in
-    let mode := match assoc_str m generate_column_save_mode_hash with Some n => venum "EnumGenerateColumnSaveMode" n | None => VNone end in
+    let mode := match assoc_str (upper m) generate_column_save_mode_hash with Some n => venum "EnumGenerateColumnSaveMode" n | None => VNone end in
     Ok (node "ASTGeneratedColumn" [("expression", e); ("save_mode", mode)], t3).
 
   Record colattrs := mkca { ca_comment : value; ca_unsigned : bool; ca_zerofill : bool; ca_charset : value; ca_collate : value;
